@@ -610,7 +610,7 @@ def occurrence(rng, v, allow_self=False, pep604_bad=False):
 
 SHAPES = [
     # (name, weight)
-    ("single", 40), ("inherit-closed", 12), ("inherit-pass", 10), ("inherit-mixed", 8), ("chain3-pass", 6),
+    ("single", 40), ("inherit-closed", 12), ("inherit-pass", 10), ("inherit-mixed", 12), ("chain3-pass", 6),
     ("defaults", 6), ("self-nongeneric", 4),
     ("F27-pep604", 5), ("F28-renamed", 3), ("F28-capture", 2), ("F28-composed", 2), ("F28-deep", 2), ("F29-self", 4),
 ]
@@ -732,7 +732,7 @@ def gen_spec(rng, shape=None):
         raise ValueError(shape)
     # multiple inheritance: a plain (non-generic) mixin before / after the parametrised base (or `Generic[...]`)
     for i, lv in enumerate(levels):
-        if rng.random() < (0.3 if i == 0 else 0.1):
+        if rng.random() < ((0.6 if shape == "inherit-mixed" else 0.3) if i == 0 else 0.1):
             mx = {"pos": rng.choice(["before", "before", "after"]), "fields": []}
             if kind != "typeddict" and mx["pos"] == "before" and rng.random() < 0.5:
                 mx["fields"] = [("mx%d" % i, LF(rng.choice(SCALARS)))]
@@ -1030,13 +1030,16 @@ def _f50(case):
     """F50: the UNSTRUCTURE hook of a parametrised PEP 695 generic alias is the hook of the alias' unsubstituted value
     (`lambda t: self.get_unstructure_hook(get_type_alias_base(t))`): the arguments are ignored.  Recognised only on the
     unstructure side, and only when every field whose unstructured form differs from the copy's is annotated with a type
-    that mentions a generic alias."""
+    that mentions a generic alias (or `Self`: a nested instance of the same class, provided an alias-typed field differs too)."""
     if case.get("op") == "alias-unstructure":
         return True
     if case.get("op") != "unstructure" or not case.get("spec") or not case.get("diff_fields"):
         return False
     anns = {fn: a for lv in case["spec"]["levels"] for fn, a in lv["own"]}
-    return all(fn in anns and mentions_alias(anns[fn]) for fn in case["diff_fields"])
+    df = case["diff_fields"]
+    # (a field typed with `Self` holds a nested instance of the same class, alias-typed fields included)
+    return (all(fn in anns and (mentions_alias(anns[fn]) or has_self(anns[fn])) for fn in df)
+            and any(mentions_alias(anns[fn]) for fn in df))
 
 
 F51_SIG = "c17_bare_subclass_of_passthrough_base_refused_only_when_reached"
@@ -1673,6 +1676,26 @@ WITNESSES = [
 ]
 
 
+def systematic_worlds():
+    """evaluated in every run (no failure expected): the positions a plain mixin can take among the bases of
+    `class Child(<mixin>, Parent[int, U], <mixin>, Generic[U])` over `class Parent(Generic[T, U])`, for every kind of
+    class and both syntaxes, with and without fields of the mixin"""
+    out = []
+    for kind in ("attrs", "dataclass", "typeddict"):
+        for style in ("generic", "pep695"):
+            for pos in ("before", "after"):
+                for with_fields in (False, True):
+                    if with_fields and (kind == "typeddict" or pos == "after"):
+                        continue
+                    child = _lv("Child", ["U"], [("c", OPT(TV("U")))], [LF("int"), TV("U")])
+                    child["mixin"] = {"pos": pos, "fields": [("mx0", LF("str"))] if with_fields else []}
+                    parent = _lv("Parent", ["T", "U"], [("a", TV("T")), ("b", APP("list", TV("U")))])
+                    out.append({"shape": "systematic-mixin", "kind": kind, "style": style, "target": "alias",
+                                "occ": ["mixin-" + pos], "levels": [child, parent],
+                                "argsets": [[LF("float")], [APP("In", LF("int"))]]})
+    return out
+
+
 def depth_probe(chk):
     """F40 (repaired) must stay repaired: a self-referential TypedDict structured by fresh converters at 10 consecutive
     stack depths gives one outcome"""
@@ -1746,6 +1769,10 @@ def run(chk: framework.Check):
             chk.note("stale-finding:" + fid)
         all_fails += fails
 
+    for spec in systematic_worlds():
+        chk.note("shape:" + spec["shape"], "kind:" + spec["kind"], "style:" + spec["style"])
+        all_fails += eval_world(chk, drv, spec, 2, corr_fail, label="systematic")
+
     all_fails += depth_probe(chk)
     chk.note("probe:F40-depth")
     f50 = alias_unstructure_probe(chk)
@@ -1802,9 +1829,14 @@ def replay(case):
     if case.get("op") == "dcw":
         print("deep_copy_with case:", json.dumps(case))
         return 0
-    spec = case["spec"]
-    if spec.get("kind") == "alias":
+    spec = case.get("spec")
+    if spec is None or spec.get("kind") == "alias":
         print("alias case:", json.dumps(case))
+        if case.get("op") == "alias-unstructure" and spec is None:
+            fails = alias_unstructure_probe(chk)
+            for what, _ in fails:
+                print("FAIL:", what)
+            return 1 if fails else 0
         return 0
     W = World(spec)
     print(W.source)
